@@ -8,7 +8,6 @@ import (
 	"go/constant"
 	"reflect"
 	"regexp"
-	"strings"
 	"unsafe"
 )
 
@@ -3383,159 +3382,46 @@ func _case(n *node) {
 
 		if len(sn.child[1].child) != 2 {
 			// no assign in switch guard
-			if len(n.child) <= 1 {
+			if len(types) == 0 {
 				n.exec = func(f *frame) bltn { return tnext }
-			} else {
-				n.exec = func(f *frame) bltn {
-					ival := srcValue(f).Interface()
-					val, ok := ival.(valueInterface)
-					// TODO(mpl): I'm assuming here that !ok means that we're dealing with the empty
-					// interface case. But maybe we should make sure by checking the relevant cat
-					// instead? later. Use t := v.Type(); t.Kind() == reflect.Interface , like above.
-					if !ok {
-						var stype string
-						if ival != nil {
-							stype = strings.ReplaceAll(reflect.TypeOf(ival).String(), " {}", "{}")
-						}
-						for _, typ := range types {
-							// TODO(mpl): we should actually use canAssertTypes, but need to find a valid
-							// rtype for typ. Plus we need to refactor with typeAssert().
-							// weak check instead for now.
-							if ival == nil {
-								if typ.cat == nilT {
-									return tnext
-								}
-								continue
-							}
-							if stype == typ.id() {
-								return tnext
-							}
-						}
-						return fnext
+				break
+			}
+			n.exec = func(f *frame) bltn {
+				v := srcValue(f)
+				for _, typ := range types {
+					if _, ok := matchCase(f, v, typ); ok {
+						return tnext
 					}
-					if v := val.node; v != nil {
-						for _, typ := range types {
-							if v.typ.id() == typ.id() {
-								return tnext
-							}
-						}
-					}
-					return fnext
 				}
+				return fnext
 			}
 			break
 		}
 
 		// assign in switch guard
 		destValue := genValue(n.lastChild().child[0])
-		switch len(types) {
-		case 0:
-			// default clause: assign var to interface value
-			n.exec = func(f *frame) bltn {
-				destValue(f).Set(srcValue(f))
+		n.exec = func(f *frame) bltn {
+			v := srcValue(f)
+			for _, typ := range types {
+				val, ok := matchCase(f, v, typ)
+				if !ok {
+					continue
+				}
+				if len(types) > 1 {
+					// Several types in the clause: the var has the type and the value of the operand.
+					val = v
+				}
+				if val.IsValid() {
+					destValue(f).Set(val)
+				}
 				return tnext
 			}
-		case 1:
-			// match against 1 type: assign var to concrete value
-			typ := types[0]
-			n.exec = func(f *frame) bltn {
-				v := srcValue(f)
-				if !v.IsValid() {
-					// match zero value against nil
-					if typ.cat == nilT {
-						return tnext
-					}
-					return fnext
-				}
-				if t := v.Type(); t.Kind() == reflect.Interface {
-					if typ.cat == nilT && v.IsNil() {
-						return tnext
-					}
-					rtyp := typ.TypeOf()
-					if rtyp == nil {
-						return fnext
-					}
-					elem := v.Elem()
-					if rtyp.String() == t.String() && implementsInterface(v, typ) {
-						destValue(f).Set(elem)
-						return tnext
-					}
-					ival := v.Interface()
-					if ival != nil && rtyp.String() == reflect.TypeOf(ival).String() {
-						destValue(f).Set(elem)
-						return tnext
-					}
-					if typ.cat == valueT && rtyp.Kind() == reflect.Interface && elem.IsValid() && elem.Type().Implements(rtyp) {
-						destValue(f).Set(elem)
-						return tnext
-					}
-					return fnext
-				}
-				if vi, ok := v.Interface().(valueInterface); ok {
-					if vi.node != nil {
-						if vi.node.typ.id() == typ.id() {
-							destValue(f).Set(vi.value)
-							return tnext
-						}
-					}
-					return fnext
-				}
-				if v.Type() == typ.TypeOf() {
-					destValue(f).Set(v)
-					return tnext
-				}
-				return fnext
+			if len(types) == 0 {
+				// default clause: assign var to interface value
+				destValue(f).Set(v)
+				return tnext
 			}
-
-		default:
-			n.exec = func(f *frame) bltn {
-				val := srcValue(f)
-				if t := val.Type(); t.Kind() == reflect.Interface {
-					for _, typ := range types {
-						if typ.cat == nilT && val.IsNil() {
-							return tnext
-						}
-						rtyp := typ.TypeOf()
-						if rtyp == nil {
-							continue
-						}
-						elem := val.Elem()
-						if rtyp.String() == t.String() && implementsInterface(val, typ) {
-							destValue(f).Set(elem)
-							return tnext
-						}
-						ival := val.Interface()
-						if ival != nil && rtyp.String() == reflect.TypeOf(ival).String() {
-							destValue(f).Set(elem)
-							return tnext
-						}
-						if typ.cat == valueT && rtyp.Kind() == reflect.Interface && elem.IsValid() && elem.Type().Implements(rtyp) {
-							destValue(f).Set(elem)
-							return tnext
-						}
-					}
-					return fnext
-				}
-				if vi, ok := val.Interface().(valueInterface); ok {
-					if v := vi.node; v != nil {
-						for _, typ := range types {
-							if v.typ.id() == typ.id() {
-								destValue(f).Set(val)
-								return tnext
-							}
-						}
-					}
-					return fnext
-				}
-				vt := val.Type()
-				for _, typ := range types {
-					if vt == typ.TypeOf() {
-						destValue(f).Set(val)
-						return tnext
-					}
-				}
-				return fnext
-			}
+			return fnext
 		}
 
 	case len(n.child) <= 1: // default clause
@@ -3565,20 +3451,78 @@ func _case(n *node) {
 	}
 }
 
-func implementsInterface(v reflect.Value, t *itype) bool {
-	rt := v.Type()
-	if t.cat == valueT {
-		return rt.Implements(t.rtype)
+// matchCase tells if the dynamic type of the interface value v, the operand of a type switch,
+// is typ, or implements typ if typ is an interface type. The nil type matches a nil interface
+// value only. It returns the value held by v converted to typ, to be assigned to the variable
+// of the switch guard in a clause with this single type.
+func matchCase(f *frame, v reflect.Value, typ *itype) (reflect.Value, bool) {
+	// Get the dynamic value of the operand, and the node which gives its type, if known.
+	var dnode *node
+	val := v
+	for val.IsValid() {
+		if val.Kind() == reflect.Interface {
+			val = val.Elem()
+			continue
+		}
+		vi, ok := val.Interface().(valueInterface)
+		if !ok {
+			break
+		}
+		if vi.node != nil {
+			dnode = vi.node
+		}
+		val = vi.value
 	}
-	vt := &itype{cat: valueT, rtype: rt}
-	if vt.methods().contains(t.methods()) {
-		return true
+	if typ.cat == nilT || !val.IsValid() {
+		return reflect.Value{}, typ.cat == nilT && !val.IsValid()
 	}
-	vi, ok := v.Interface().(valueInterface)
-	if !ok {
-		return false
+	// The dynamic type is a reflect type only for a value of a binary type,
+	// and for a value stored as is in an empty or a binary interface.
+	var dtyp *itype
+	if dnode != nil && dnode.typ.cat != nilT && !isInterface(dnode.typ) {
+		dtyp = dnode.typ
 	}
-	return vi.node != nil && vi.node.typ.methods().contains(t.methods())
+	ft := typ.frameType()
+	if ft == nil {
+		return reflect.Value{}, false
+	}
+	if ft != valueInterfaceType && ft.Kind() != reflect.Interface {
+		// Not an interface type: the dynamic type must be identical.
+		if dtyp != nil {
+			return val, dtyp.id() == typ.id()
+		}
+		return val, val.Type() == ft
+	}
+
+	// An interface type: the method set of the dynamic type must contain its methods.
+	switch {
+	case dtyp == nil && ft != valueInterfaceType:
+		if !val.Type().Implements(ft) {
+			return reflect.Value{}, false
+		}
+	case dtyp == nil:
+		if !valueTOf(val.Type()).methods().contains(typ.methods()) {
+			return reflect.Value{}, false
+		}
+	case !dtyp.methods().contains(typ.methods()) || dtyp.needsPtrFor(typ):
+		return reflect.Value{}, false
+	}
+	switch {
+	case ft == valueInterfaceType:
+		if dnode == nil {
+			dnode = &node{typ: valueTOf(val.Type())}
+		}
+		return reflect.ValueOf(valueInterface{dnode, val}), true
+	case ft.NumMethod() == 0:
+		return v, true
+	case dtyp != nil:
+		// A value of an interpreter type is wrapped to be stored in a binary interface.
+		// A nil pointer can not be wrapped (the interface itself would be nil).
+		held := func(*frame) reflect.Value { return val }
+		w := genInterfaceWrapperValue(dnode, ft, held)(f)
+		return w, w.Kind() != reflect.Interface || !w.IsNil()
+	}
+	return val, true
 }
 
 func appendSlice(n *node) {
